@@ -56,9 +56,11 @@ CLAIMED = {
 }
 
 
-SEARCH_NOTE = NOTE + ('float32 rounding is outside the model (scores fed to the C++ are exactly representable, k/64); the heap '
-                      'tie-breaking of std::priority_queue is the parameter `pick` of the model (theorems hold for every pick that '
-                      'returns a maximal element); exact pop traces are compared on tie-free inputs, status and scores otherwise; '
+SEARCH_NOTE = NOTE + ('float32 rounding is outside the model (scores fed to the C++ are exactly representable, k/64; inexact '
+                      'scores are used by oracle-only suites); the agenda of the model is libstdc++\'s binary heap (pickHeap), so pop '
+                      'traces and result trees are compared exactly, ties included, while every theorem is proved for any admissible '
+                      'agenda; the rule cache is filled lazily during the search in the model `Lazy` exactly as in parse_sentence, and '
+                      'lazy_eq_final_partial proves that this equals the search over a total grammar that the theorems speak of; '
                       'the Cython glue runs as a translation to Python over ctypes (harness/pyx2py.py, pyxrt.py, shim.cpp).')
 CLAIMED.update({
     'C01': (T_PROOF,
@@ -67,8 +69,12 @@ CLAIMED.update({
             '(first_parse_optimal), a failure with step budget left means no licensed parse exists (failure_only_if_none), '
             'and popped priorities never increase (pops_nonincreasing, any grammar). The model is diffed against the real C++ '
             'parse_sentence (compiled from /repo each run, pop hook) on ~1500 random problems per run; an exhaustive '
-            'enumeration of all derivations is the oracle for optimality, failure and monotonicity on the real code.',
-            SEARCH_NOTE, 'DESIGN.md §4 C01'),
+            'enumeration of all derivations is the oracle for optimality, failure and monotonicity on the real code. '
+            'Also proved of the model of the whole call (`Lazy`: Lean rule functions + callbacks + lazily filled cache + search): '
+            'lazy_first_parse_optimal, lazy_shipped_optimal_partial (both shipped grammars), lazy_pops_nonincreasing; the '
+            'unrestricted forms of two statements were refuted (a tag column that is not an id of the table) and are kept with '
+            'their counterexamples.',
+            SEARCH_NOTE, 'DESIGN.md §4 C01, §7'),
     'C02': (T_PROOF,
             'Proved: every returned item carries a licensed complete parse (leaves = input tokens in order with admitted tags, '
             'every node a grammar result of its children with its rule id and head direction, allowed root, no unary step at the '
@@ -93,18 +99,23 @@ CLAIMED.update({
             'Proved: the priority of every returned item equals the model score of its derivation (leaf tags + attachment of every '
             'non-head child by the stored head flags + root attachment - penalty per unary node), any grammar, 1-best and n-best. '
             'Diffed against the real C++ and against real trees through the glue (scores recomputed from each returned Tree with '
-            'its head flags).',
+            'its head flags); lazy_score_accounting carries it to the lazy model of the call.',
             SEARCH_NOTE, 'DESIGN.md §4 C09'),
     'C10': (T_PROOF,
             'Proved for n-best mode with step budget left: no unreturned licensed parse scores more than a returned one, fewer '
             'than k results means all parses were returned, returned derivations are pairwise distinct, results sorted, at most '
-            'k. Diffed against the real C++; oracle = full enumeration (k largest scores, distinctness, order).',
+            'k (also for the lazy model: lazy_nbest_topk). Diffed against the real C++; oracle = full enumeration (k largest '
+            'scores, distinctness, order) and, on inexact float32 scores, order and distinctness of the reported list.',
             SEARCH_NOTE, 'DESIGN.md §4 C10'),
     'C11': (T_PROOF,
             'Proved: chunking loses/duplicates/reorders nothing and the batch driver is map-solo for every chunk size and '
             'process count; shape mismatches are rejected by a function of the shapes alone; the search commutes with any '
             'injective renumbering of derived categories that fixes the lexical ids (run_rename) - the only thing batch '
-            'history can change in the glue. The real depccg.parsing.run (translated glue + real C++ + real '
+            'history can change in the glue. At the level of trees, for the model of the whole call: the result of a sentence '
+            '(placeholder or scored trees) and its step count do not depend on anything the call did before '
+            '(lazy_history_independent), a call is map-solo (batch_eq_map_solo), and depccg.parsing.run with any chunk size / '
+            'number of processes returns one result per sentence in order, each equal to parsing it alone '
+            '(parsing_run_eq_map_solo). The real depccg.parsing.run (translated glue + real C++ + real '
             'multiprocessing.Pool) is compared: alone vs one call vs permuted vs subset vs repeated vs chunked.',
             SEARCH_NOTE + ' process scheduling, pickling and worker crashes are runtime behaviour observed by the correspondence only.',
             'DESIGN.md §4 C11'),
@@ -112,13 +123,15 @@ CLAIMED.update({
             'Proved: (a) every node of a returned derivation carries the rule id of the grammar result that created it with that '
             'result\'s category and head direction (part of `Licensed`, returned_valid); (b) guess_combinator_by_triplet returns '
             'the first rule deriving the node and unk only when none does. Glue-level correspondence checks labels/symbols/heads '
-            'on real trees with grammars whose results for one pair all differ; reader labels checked on printed-and-read trees.',
+            'on real trees with grammars whose results for one pair all differ; reader labels checked on printed-and-read trees '
+            '(auto, xml, jigg, ptb; files carrying foreign labels; both grammars in one process).',
             SEARCH_NOTE, 'DESIGN.md §4 C12'),
     'C16': (T_PROOF,
             'Proved: the admitted tags of a token are a prefix of its candidates in queue order, within the pruning_size best, all '
             'pass the probability test, stop at the first failure; with the filter off exactly the top pruning_size; every leaf '
             'of a returned parse carries an admitted tag. The numeric test exp(s) > exp(best)*beta is a parameter of the model '
-            '(computed by the harness with the same float32 libm expf) - correspondence-only.',
+            '(computed by the harness with the same float32 libm expf) - correspondence-only. lazy_leaf_tags_admitted carries it to '
+            'the lazy model of the call.',
             SEARCH_NOTE, 'DESIGN.md §4 C16'),
 })
 
@@ -176,12 +189,13 @@ CLAIMED.update({
             'One theorem per format family that the real bytes are tied to: auto/conll (C08 round trip, fragments), ptb/ja (C20), '
             'xml/jigg_xml (C15), auto_extended (independent Lean decoder reads every printed line back to words/shape/categories/'
             'labels/head flags/attributes), conll heads (= the head assignment implied by the head flags: one root, every other '
-            'word attached inside its parent span), json (shape/categories/labels/attributes), deriv (rule-line extents = leaf '
-            'column intervals, post-order), html (a Lean reader decodes the MathML of every tree back to nesting, words, labels and '
+            'word attached inside its parent span), json (shape/categories/labels/attributes), deriv (an independent Lean reader of '
+            'the ASCII art recovers words, shape, categories and rule symbols of every printed derivation: deriv_decode; it is '
+            'also run on the real output), html (a Lean reader decodes the MathML of every tree back to nesting, words, labels and '
             'category segments), record numbering by sentence for every line format and prolog. All twelve printers '
             'are modelled to the character / element and diffed against the real to_string; eleven independent Python '
             'decoders compare each real output with the derivation in the format\'s own spelling.',
-            TEXT_NOTE + ' html is modelled and decoded in Lean (html_decode); the Prolog term reader and the full deriv decoder live in the oracle (partial, named in the evidence); '
+            TEXT_NOTE + ' html is modelled and decoded in Lean (html_decode) and so is deriv (deriv_decode); the Prolog term reader lives in the oracle (partial, named in the evidence); '
             'float formatting of the header scores is a parameter.',
             'DESIGN.md §4 C07'),
     'C19': (T_PROOF,
